@@ -59,8 +59,11 @@ type Spec struct {
 	Cfg     Config   `json:"cfg"`
 	Exch    []Exch   `json:"exch"`
 	Attacks []Attack `json:"attacks"`
-	Seed    uint64   `json:"seed"`
-	Note    string   `json:"note,omitempty"`
+	// Late: exchanges started after the first ones have completed; when present, the attacks are not sent one after
+	// the other at the end but interleaved (seeded) with the messages of these exchanges.
+	Late []Exch `json:"late,omitempty"`
+	Seed uint64 `json:"seed"`
+	Note string `json:"note,omitempty"`
 }
 
 type exchRun struct {
@@ -617,7 +620,44 @@ func runCase(spec *Spec, kind string, idx int) *hx.Record {
 		r.checkAll("honest")
 	}
 
+	if len(spec.Late) > 0 && w.inconclusive == "" && res.fail == "" {
+		var mixed []func()
+
+		for i := range spec.Late {
+			e := &exchRun{Exch: spec.Late[i]}
+			r.exs = append(r.exs, e)
+
+			if err := r.setup(e); err != nil {
+				res.obs["setup-error"] = err.Error()
+				rec.Trivial, rec.Class, rec.Observed = true, "setup-error", res.obs
+
+				return rec
+			}
+
+			mixed = append(mixed, func() { r.acceptStep(e) })
+		}
+
+		for i, at := range spec.Attacks {
+			i, at := i, at
+			mixed = append(mixed, func() {
+				if err := r.attack(at); err != nil {
+					res.obs[fmt.Sprintf("attack-%d-skipped", i)] = err.Error()
+				}
+			})
+		}
+
+		r.drain(mixed)
+
+		if w.inconclusive == "" {
+			r.checkAll("mixed")
+		}
+	}
+
 	for i, at := range spec.Attacks {
+		if len(spec.Late) > 0 {
+			break
+		}
+
 		if w.inconclusive != "" || res.fail != "" {
 			break
 		}
@@ -657,12 +697,16 @@ func runCase(spec *Spec, kind string, idx int) *hx.Record {
 		res.obs["direct-oracle-only"] = w.coqWhy
 	}
 	rec.Observed = res.obs
-	rec.Class = fmt.Sprintf("%v|%v|%v|%d", spec.Cfg, spec.Exch, spec.Attacks, completed)
+	rec.Class = fmt.Sprintf("%v|%v|%v|%v|%d", spec.Cfg, spec.Exch, spec.Late, spec.Attacks, completed)
 	rec.Dist = []string{"cfg:" + spec.Cfg.Profile + "/" + spec.Cfg.KeyType + "/" + spec.Cfg.KAType, fmt.Sprintf("exchanges:%d", len(spec.Exch)),
 		fmt.Sprintf("completed:%d", completed)}
 
-	for _, e := range spec.Exch {
+	for _, e := range append(append([]Exch{}, spec.Exch...), spec.Late...) {
 		rec.Dist = append(rec.Dist, "style:"+e.Style)
+	}
+
+	if len(spec.Late) > 0 {
+		rec.Dist = append(rec.Dist, "attacks-interleaved-with-exchanges")
 	}
 
 	for _, a := range spec.Attacks {
@@ -1281,6 +1325,21 @@ func main() {
 
 		for j, n := 0, 1+rng.Intn(4); j < n; j++ {
 			s.Attacks = append(s.Attacks, Attack{Kind: attackKinds[rng.Intn(len(attackKinds))], Target: target})
+		}
+
+		if rng.Intn(2) == 0 { // the attacks run while further exchanges are under way
+			for j, n := 0, 1+rng.Intn(2); j < n; j++ {
+				e := Exch{Inviter: "alice", Invitee: "bob", Style: styles[rng.Intn(len(styles))]}
+				if e.Style == "implicit" && !implicitOK(s.Cfg) {
+					e.Style = "oob"
+				}
+
+				if rng.Bool() {
+					e.Inviter, e.Invitee = "bob", "alice"
+				}
+
+				s.Late = append(s.Late, e)
+			}
 		}
 
 		add("random", s)
